@@ -312,3 +312,134 @@ def check_pack_pair(repo: Repo, rep, P: str, rule: str, writer_ci: ClassInfo, wr
     extra = [k for k in ev2.env if k.startswith(prefix) and k[len(prefix):] not in widths]
     for k in extra:
         rep.info(f"{P}.{rule}", rconstruct, k, "reader assigns an attribute the writer does not pack")
+
+
+# ------------------------------------------------------------------- struct getter / setter pairs
+_SIZES = {"B": 1, "b": 1, "H": 2, "h": 2, "I": 4, "i": 4, "L": 4, "l": 4, "Q": 8, "q": 8, "x": 1, "c": 1}
+
+
+def _fmt_items(fmt: str):
+    """('<' | '>', [(char, size), ...]) with repeat counts expanded."""
+    order = "<"
+    if fmt and fmt[0] in "<>=!@":
+        order = ">" if fmt[0] in ">!" else "<"
+        fmt = fmt[1:]
+    items = []
+    num = ""
+    for ch in fmt:
+        if ch.isdigit():
+            num += ch
+            continue
+        if ch not in _SIZES:
+            raise Unsupported(f"format char {ch!r}")
+        for _ in range(int(num) if num else 1):
+            items.append((ch, _SIZES[ch]))
+        num = ""
+    return order, items
+
+
+def struct_accessor_pair(repo: Repo, rep, P: str, rule: str, ci: ClassInfo, prop: str, fields: Dict[str, int]) -> None:
+    """Property getter `return pack(FMT, e…)` vs setter `t… = unpack(FMT', data)`: each field in `fields` (name -> width in
+    bits) is read back, bit for bit, from the bytes it was written to — whatever the two format strings look like."""
+    g, s = ci.getters.get(prop), ci.setters.get(prop)
+    rel = ci.file.rel
+    con = f"{rel}:{ci.qualname}.{prop}"
+    if g is None or s is None:
+        raise AnchorMissing(f"{ci.qualname}.{prop}")
+    pk = next((n for n in walk_no_nested(g) if isinstance(n, ast.Call) and norm(n.func) in ("pack", "struct.pack")), None)
+    if pk is None:
+        rep.inconclusive(f"{P}.{rule}", con, norm(g)[:100], "getter does not pack()", f"{rel}:{g.lineno}")
+        return
+    try:
+        wfmt = repo.fold(pk.args[0], ci=ci)
+        worder, witems = _fmt_items(wfmt)
+        env = {f"self.{a}": BV.term(a, width=w) for a, w in fields.items()}
+        env.update({f"self.{a}.value": BV.term(a, width=w) for a, w in fields.items()})
+        ev = BitEval(repo, ci, env)
+        data: List[List] = []          # bytes, each a list of 8 lanes
+        args = [a for a in pk.args[1:]]
+        vals = [x for x in witems if x[0] != "x"]
+        if len(args) != len(vals):
+            rep.violation(f"{P}.{rule}", con, norm(pk)[:120], f"pack format {wfmt!r} takes {len(vals)} values, {len(args)} given", f"{rel}:{pk.lineno}")
+            return
+        ai = 0
+        for ch, size in witems:
+            if ch == "x":
+                data.append([0] * 8)
+                continue
+            a = args[ai]
+            ai += 1
+            if isinstance(a, ast.IfExp):
+                # marker bytes that are a function of other fields: opaque
+                bv = BV([bits.T(frozenset(["marker"]))] * 8 + [0] * (bits.W - 8))
+            else:
+                bv = ev.ev(a)
+            spill = [i for i in range(size * 8, bits.W) if bv.lanes[i] != 0]
+            if spill:
+                rep.violation(f"{P}.{rule}", con, f"{norm(a)} as {ch!r}",
+                              f"the value packed into this {size}-byte field can need more than {size * 8} bits (struct.error / truncation)",
+                              f"{rel}:{a.lineno}")
+            bs = [bv.lanes[8 * j:8 * j + 8] for j in range(size)]
+            data.extend(bs if worder == "<" else list(reversed(bs)))
+    except (Unsupported, NotConst) as e:
+        rep.inconclusive(f"{P}.{rule}", con, norm(pk)[:120], f"writer not evaluable: {e}", f"{rel}:{pk.lineno}")
+        return
+    up = next((n for n in walk_no_nested(s) if isinstance(n, ast.Assign) and isinstance(n.value, ast.Call)
+               and norm(n.value.func) in ("unpack", "struct.unpack")), None)
+    if up is None:
+        rep.inconclusive(f"{P}.{rule}", con, norm(s)[:100], "setter does not unpack()", f"{rel}:{s.lineno}")
+        return
+    try:
+        rfmt = repo.fold(up.value.args[0], ci=ci)
+        rorder, ritems = _fmt_items(rfmt)
+        if sum(sz for _, sz in ritems) != len(data):
+            rep.violation(f"{P}.{rule}", con, f"pack {wfmt!r} / unpack {rfmt!r}",
+                          f"the writer produces {len(data)} bytes, the reader expects {sum(sz for _, sz in ritems)}", f"{rel}:{up.lineno}")
+            return
+        tg = up.targets[0]
+        tgs = tg.elts if isinstance(tg, (ast.Tuple, ast.List)) else [tg]
+        rvals = [x for x in ritems if x[0] != "x"]
+        if len(tgs) != len(rvals):
+            rep.violation(f"{P}.{rule}", con, norm(up)[:120], f"unpack yields {len(rvals)} values for {len(tgs)} targets", f"{rel}:{up.lineno}")
+            return
+        ev2 = BitEval(repo, ci, {})
+        off = 0
+        ti = 0
+        for ch, size in ritems:
+            chunk = data[off:off + size]
+            off += size
+            if ch == "x":
+                continue
+            if rorder == ">":
+                chunk = list(reversed(chunk))
+            lanes = [l for b in chunk for l in b] + [0] * (bits.W - 8 * size)
+            bv = BV(lanes)
+            if ch in "bhilq":
+                top = lanes[8 * size - 1]
+                if top != 0:
+                    bv = BV(lanes[:8 * size] + [bits.T(frozenset(bv.deps()))] * (bits.W - 8 * size))     # sign extension
+            t = tgs[ti]
+            ti += 1
+            key = ev2._key(t)
+            if key is not None and key != "_":
+                ev2.env[key] = bv
+        rest = [st for st in stmts_of(s) if st is not up]
+        ev2.run(rest)
+    except (Unsupported, NotConst) as e:
+        rep.inconclusive(f"{P}.{rule}", con, norm(up)[:120], f"reader not evaluable: {e}", f"{rel}:{up.lineno}")
+        return
+    for a, w in fields.items():
+        got = ev2.env.get(f"self.{a}")
+        if got is None:
+            rep.violation(f"{P}.{rule}", con, f"self.{a}", f"the setter never assigns `{a}`, which the getter packs", f"{rel}:{s.lineno}")
+            continue
+        lb = low_bits_of_single_term(got)
+        if lb is None or lb[0] != a:
+            rep.violation(f"{P}.{rule}", con, f"pack {wfmt!r} … / unpack {rfmt!r} …",
+                          f"`{a}` is read back as {got.show(w + 2)} — not the bits that were written for it: a value that uses "
+                          "those bits changes on every save/load cycle", f"{rel}:{s.lineno}")
+        elif lb[1] < w:
+            rep.violation(f"{P}.{rule}", con, f"pack {wfmt!r} … / unpack {rfmt!r} …",
+                          f"only {lb[1]} of the {w} bits of `{a}` survive the getter/setter pair", f"{rel}:{s.lineno}")
+        else:
+            rep.ok(f"{P}.{rule}", con, f"{a}: {w} bit(s)", "read back from the bytes it was written to")
